@@ -45,9 +45,18 @@ def scenario(sh: Shard, seed, idx):
         loc = GeckoLocator("02ac6d28-42d0-41e3-ad22-274d0aa491da", **kw)
         done = {}
 
+        # the other way of using the blocking locator: start it, come back later, complete() it
+        nowait = idx % 5 == 4
+        linger = r.choice([0.3, 2.0, 5.0, 12.0])
+
         def run_discovery():
             with contextlib.redirect_stdout(io.StringIO()):
-                loc.start_discovery(True)
+                if nowait:
+                    loc.start_discovery(False)
+                    s.sleep(linger)
+                    loc.complete()
+                else:
+                    loc.start_discovery(True)
             done["t"] = s.now
 
         from vlib.vthreads import MThread
@@ -78,6 +87,26 @@ def scenario(sh: Shard, seed, idx):
             return
         dur = done["t"] - t0
         wit["duration"] = round(dur, 3)
+        if nowait:
+            # only the listing and the clean-up clauses apply to start ... complete()
+            sh.count("threaded_start_then_complete_runs")
+            listed = [d.identifier for d in loc.spas]
+            if len(set(listed)) != len(listed):
+                sh.violation("C15:threaded:listed-twice", f"a spa is listed more than once: {listed}", wit)
+            for d in loc.spas:
+                if not any(x["ident"] == d.identifier and x["name"] == d.name and x["sock"].addr == (d.ipaddress, d.port) for x in resp):
+                    sh.violation("C15:threaded:descriptor-not-intact", f"descriptor ({d.identifier!r}, {d.name!r}, {d.ipaddress}) matches no responder", wit)
+            s.sleep(1.5)
+            if not loc._socket._socket is None and not getattr(loc._socket._socket, "closed", True):
+                sh.violation("C15:threaded:socket-open", "discovery socket still open after complete() returned", wit)
+            alive = [t.name for t in s.threads if t is not s.main and not t.done]
+            if alive:
+                sh.violation("C15:threaded:threads-alive", f"threads still alive 1.5 s after complete() returned: {alive}", wit)
+            bad = [(n, repr(e)) for n, e in s.errors]
+            if bad:
+                sh.violation("C15:threaded:thread-died", f"a thread ended with an exception: {bad[0]}", wit)
+            sh.nontrivial(f"T:{seed}:{idx}:nowait")
+            return
         T_INIT, T_MAX = GeckoConfig.DISCOVERY_INITIAL_TIMEOUT_IN_SECONDS, GeckoConfig.DISCOVERY_TIMEOUT_IN_SECONDS
         slack = 0.35
         listed = [d.identifier for d in loc.spas]
